@@ -607,22 +607,7 @@ def rule_K3_K4(ctx):
     ctx.check('C17.K4.recursion', '_dict_deserialize', ok,
               'de-serialisation does not dispatch on __class__ through the '
               'registry and recurse', ctx.where(io, des))
-    # HDF5 groups keep insertion order only with track_order=True
-    # (axiom about h5py: otherwise members come back in alphabetical order,
-    # which permutes name->data associations of dictionaries)
-    hd = io.func('_hdf5_dump')
-    groups = [c for c in ast.walk(hd) if isinstance(c, ast.Call) and
-              isinstance(c.func, ast.Attribute) and
-              c.func.attr == 'create_group']
-    ctx.anchor(len(groups) >= 1, 'create_group in _hdf5_dump')
-    for c in groups:
-        kws = {k.arg: ast.unparse(k.value) for k in c.keywords}
-        ctx.check('C17.K3.h5order', f'_hdf5_dump `{ast.unparse(c)[:50]}`',
-                  kws.get('track_order') == 'True',
-                  'HDF5 groups are created without track_order=True: nested '
-                  'dictionaries are reloaded in alphabetical, not insertion '
-                  'order (survey dictionaries no longer match the data axes)',
-                  ctx.where(io, c))
+    h5_order(ctx, 'C17.K3.h5order')
     cv = io.func('convert')
     ps = au.params(cv)
     ld = find(f'_d_ = load({ps[0]}, **kwargs)', cv)
@@ -634,6 +619,29 @@ def rule_K3_K4(ctx):
     ctx.floor('C17.K3.formats', 4)
     ctx.floor('C17.K3.tags', 4)
     ctx.floor('C17.K3.sentinel', 2)
+
+
+def h5_order(ctx, rule):
+    """HDF5 groups keep insertion order only with track_order=True (axiom
+    about h5py: otherwise members come back in alphabetical order, which
+    permutes the name -> data association of the survey dictionaries: a
+    re-loaded survey / simulation reports its data under the wrong source,
+    receiver and frequency names).  Shared by C12 and C13 (a re-loaded
+    simulation / survey equals the original)."""
+    io = ctx.repo.mod('emg3d/io.py')
+    hd = io.func('_hdf5_dump')
+    groups = [c for c in ast.walk(hd) if isinstance(c, ast.Call) and
+              isinstance(c.func, ast.Attribute) and
+              c.func.attr == 'create_group']
+    ctx.anchor(len(groups) >= 1, 'create_group in _hdf5_dump')
+    for c in groups:
+        kws = {k.arg: ast.unparse(k.value) for k in c.keywords}
+        ctx.check(rule, f'_hdf5_dump `{ast.unparse(c)[:50]}`',
+                  kws.get('track_order') == 'True',
+                  'HDF5 groups are created without track_order=True: nested '
+                  'dictionaries are reloaded in alphabetical, not insertion '
+                  'order (survey dictionaries no longer match the data axes)',
+                  ctx.where(io, c))
 
 
 def rule_oneshot(ctx):
